@@ -170,6 +170,46 @@ def intact_block_count(ps, fs):
         for off, ln, typ, raw in packets_of(ps.created[v]):
             if typ.startswith(b"PAR 2.0\0RecvSlic"):
                 want[struct.unpack("<I", raw[64:68])[0]] = raw
-    prefix, suffix = DIR + "/" + ps.base + ".", ".par2"
-    files = [d for p, d in fs.items() if p.startswith(prefix) and p.endswith(suffix) and "/" not in p[len(DIR) + 1:]]
+    ixdir = ps.index.rsplit("/", 1)[0]
+    prefix, suffix = ixdir + "/" + ps.base + ".", ".par2"
+    files = [d for p, d in fs.items() if p.startswith(prefix) and p.endswith(suffix) and "/" not in p[len(ixdir) + 1:]]
     return sum(1 for e, raw in want.items() if any(raw in d for d in files))
+
+
+def independent_usable(ps, fs):
+    """Number of protected slices that are present in the surviving protected files in the sense of the properties -
+    contiguously, not overlapping another surviving slice, zero padding only past the end of a file - computed from the
+    ORIGINAL contents alone (no gopar, no model).  Returns None when the state is ambiguous for such a count: two slices with the
+    same padded content, a slice occurring more than once, or two occurrences overlapping."""
+    S = ps.slice
+    sl = []
+    for n, d in ps.files.items():
+        for i in range(0, len(d), S):
+            c = d[i:i + S]
+            sl.append(c + bytes(S - len(c)))
+    if len(set(sl)) != len(sl):
+        return None
+    occ = []          # (file path, offset, slice index)
+    for k, pad in enumerate(sl):
+        hits = []
+        for n in ps.files:
+            d = fs.get(ps.paths[n])
+            if d is None:
+                continue
+            dd = d + bytes(S - 1)
+            start = 0
+            while True:
+                j = dd.find(pad, start)
+                if j < 0 or j >= len(d):
+                    break
+                hits.append((ps.paths[n], j))
+                start = j + 1
+        if len(hits) > 1:
+            return None
+        if hits:
+            occ.append((hits[0][0], hits[0][1], k))
+    occ.sort()
+    for a, b in zip(occ, occ[1:]):
+        if a[0] == b[0] and b[1] - a[1] < S:
+            return None
+    return len(occ)
